@@ -58,6 +58,10 @@ def pairs(ctx, n):
         cfg = rulegen.gen_rule_cfg(rng, case, rules=("phragmen",), allow_refuse=False)
         if not cfg["res"] and len(case.projects) > 5:
             cfg["res"] = True
+        if not cfg.get("multi") and case.ballots and case.seed % 4 == 0:
+            r_ = random.Random(case.seed ^ 0x10AD)
+            cfg["loads_direct"] = [F(r_.choice([0, 0, 1, F(1, 2), 2, 4])) for _ in case.ballots]
+            cfg.pop("loads_per_voter", None)
         yield case, cfg
 
 
